@@ -1,12 +1,12 @@
 """C01 — print -> parse identity (XML, JSON, LYB)."""
-from checks import textcomp, rtcomp, rtxcomp, lybcomp
+from checks import textcomp, rtcomp, rtxcomp, lybcomp, lybtree
 
-LEAN_TARGETS = ["LyModel.Props.C01", "LyModel.Props.C01Lyb"]
+LEAN_TARGETS = ["LyModel.Props.C01", "LyModel.Props.C01Lyb", "LyModel.Props.C01LybTree"]
 AUDIT = ["Audit/C01.lean", "Audit/C01Fn.lean"]
-GENERATED = ["XmlEsc", "JsonEsc", "Consts", "LybConsts"]
+GENERATED = ["XmlEsc", "JsonEsc", "Consts", "LybConsts", "LybTree"]
 LEAN_TARGETS += ["LyModel.Props.C05Fn"]; GENERATED += ["FnUtf8"]     # functions translated from the C source (tools/c2lean.py), bridged in lean/LyModel/Bridge
-ASSUMPTIONS = ["theorems cover the value-text layer (escaping/lexing of every string); the tree walk, with-defaults filtering and LYB framing are "
-               "exercised as laws on the implementation over generated schemas and trees (api_rt), see DESIGN.md §5 C01"]
+ASSUMPTIONS = ["theorems cover the value-text layer (escaping/lexing of every string), the LYB byte layer and the LYB tree walk (lyb_tree_roundtrip); the XML / JSON "
+               "tree walk of libyang's own PARSERS and with-defaults filtering are exercised as laws on the implementation over generated schemas and trees (api_rt), see DESIGN.md §5 C01"]
 TRUSTED = ["Python renderers in tools/checks/rtcomp.py as the independent XML / RFC 7951 JSON encoder"]
 
 
@@ -15,6 +15,8 @@ def classify(component, what, case):
         return rtcomp.classify(component, what, case)
     if component == "rtx":
         return rtxcomp.classify(component, what, case)
+    if component == "lybtree":
+        return lybtree.classify(component, what, case)
     return lybcomp.classify(component, what, case)
 
 
@@ -24,3 +26,4 @@ def run(cx):
     rtcomp.run_rt(cx, laws=("roundtrip",))
     rtxcomp.run_rtx(cx, laws=("roundtrip",))
     lybcomp.run_lyb(cx)
+    lybtree.run_lybtree(cx)
